@@ -69,6 +69,7 @@ type callPlan struct {
 	mwSrv                                                []string // processor-side middleware trace
 	mwSaw                                                []string // per middleware (innermost first): the result it saw coming back
 	via2                                                 bool     // issued through the second client
+	staleRespKey                                         string   // a response header name already present (with an old value) on the caller\'s context
 	shape                                                func(hdr map[string]string)
 	expectReqTooLarge, expectRespTooLarge, sizeAmbiguous bool
 	sizeInfo                                             string
@@ -473,6 +474,9 @@ func (env *e2eEnv) invoke(p *callPlan) {
 		ctx.AddRequestHeader(k, v)
 	}
 	p.opid, _ = ctx.RequestHeader("_opid")
+	if p.staleRespKey != "" {
+		ctx.AddResponseHeader(p.staleRespKey, "stale-value-from-an-earlier-call")
+	}
 	if p.shape != nil {
 		p.shape(ctx.RequestHeaders())
 	}
